@@ -55,7 +55,7 @@ def run(ctx):
     n0 = len(ctx.failures)
     v0 = ctx.validated
     res = ctx.drive(ct.PKG, "TestC20", env={"VERIF_TRACE_OUT": cbase, "VERIF_CORRUPT": ["ring", "owner", "owns", "digest"][ctx.seed % 4],
-                                            "VERIF_MAXGROUPS": 120}, label="C20/selftest", timeout=600)
+                                            "VERIF_MAXGROUPS": 120, "VERIF_TIER": "quick"}, label="C20/selftest", timeout=600)
     if res is not None:
         ct.validate(ctx, "TracePlacement", (res.get("coverage") or {}).get("trace_files") or [], cbase + ".cases",
                     "TestC20", {}, "C20/selftest", _match, parallel=1, timeout=600)
